@@ -100,6 +100,8 @@ pub struct ExecCtx {
     pub trace: bool,
     /// check only this property's oracles where a scenario serves several
     pub property: String,
+    /// per-worker directory prepared once by `Scenario::worker_init` (fixture pools, templates)
+    pub worker_dir: PathBuf,
 }
 impl ExecCtx {
     pub fn rt_cfg(&self) -> rt::Cfg {
@@ -133,6 +135,8 @@ pub trait Scenario: Sync {
     fn cpu_limit_s(&self) -> u64 {
         20
     }
+    /// Build per-worker fixtures (templates, pools made by git) once, outside any simulation.
+    fn worker_init(&self, _dir: &Path, _tier: Tier) {}
     /// Worker processes worth using. Process and thread creation is serialised globally on this VM (measured:
     /// 16 parallel forkers are 20x slower each), so light, creation-dominated scenarios run best with few workers.
     fn jobs_hint(&self) -> usize {
@@ -206,6 +210,37 @@ pub fn sandbox_base() -> PathBuf {
     PathBuf::from("/dev/shm/gixsim")
 }
 
+/// The calling process's fixture directory for `scn`, created (and initialised by the scenario) on first use.
+pub fn worker_dir_for(scn: &dyn Scenario, tier: Tier) -> PathBuf {
+    use std::sync::Mutex;
+    static DONE: Mutex<Vec<(String, i32)>> = Mutex::new(Vec::new());
+    let pid = unsafe { libc::getpid() };
+    let dir = sandbox_base().join(format!("worker-{}-{}", scn.name(), pid));
+    let mut d = DONE.lock().unwrap();
+    if !d.iter().any(|(n, p)| n == scn.name() && *p == pid) {
+        // a forked child inherits the parent's list: only the process that created the directory owns it
+        if let Some((_, owner)) = d.iter().find(|(n, _)| n == scn.name()) {
+            return sandbox_base().join(format!("worker-{}-{}", scn.name(), owner));
+        }
+        let _ = std::fs::remove_dir_all(&dir);
+        std::fs::create_dir_all(&dir).expect("worker dir");
+        scn.worker_init(&dir, tier);
+        d.push((scn.name().to_string(), pid));
+    }
+    dir
+}
+pub fn cleanup_worker_dirs() {
+    let pid = unsafe { libc::getpid() };
+    if let Ok(rd) = std::fs::read_dir(sandbox_base()) {
+        for e in rd.flatten() {
+            let n = e.file_name().to_string_lossy().into_owned();
+            if n.starts_with("worker-") && n.ends_with(&format!("-{pid}")) {
+                let _ = std::fs::remove_dir_all(e.path());
+            }
+        }
+    }
+}
+
 #[derive(Debug)]
 pub enum ChildEnd {
     Report(Report),
@@ -229,6 +264,7 @@ pub struct RunSpec<'a> {
 /// Execute one run in a forked child (or in-process for non-isolated scenarios). Returns the outcome and the
 /// decision list the run took (available even if the child died).
 pub fn run_one(spec: &RunSpec, shm: &Shm) -> (ChildEnd, Vec<u16>) {
+    let _ = worker_dir_for(spec.scenario, spec.tier);
     if !spec.scenario.isolated() {
         let ctx = ExecCtx {
             seed: spec.seed,
@@ -238,6 +274,7 @@ pub fn run_one(spec: &RunSpec, shm: &Shm) -> (ChildEnd, Vec<u16>) {
             strict: spec.strict,
             trace: spec.trace,
             property: spec.property.to_string(),
+            worker_dir: worker_dir_for(spec.scenario, spec.tier),
         };
         let scenario = spec.scenario;
         let workload = spec.workload;
@@ -275,6 +312,7 @@ pub fn run_one(spec: &RunSpec, shm: &Shm) -> (ChildEnd, Vec<u16>) {
                 strict: spec.strict,
                 trace: spec.trace,
                 property: spec.property.to_string(),
+                worker_dir: worker_dir_for(spec.scenario, spec.tier),
             };
             let rep = spec.scenario.execute(spec.workload, &ctx);
             let mut v = serde_json::to_value(&rep).unwrap();
@@ -518,6 +556,7 @@ fn worker(scn: &dyn Scenario, o: &BatchOpts, widx: usize, nruns: u64, out: &Path
     pin_to_cpu(widx);
     let shm = new_shm();
     let mut agg = Agg::default();
+    let _ = worker_dir_for(scn, o.tier);
     let mut i = widx as u64;
     while i < nruns {
         if Instant::now() > deadline {
@@ -549,6 +588,7 @@ fn worker(scn: &dyn Scenario, o: &BatchOpts, widx: usize, nruns: u64, out: &Path
         i += o.jobs as u64;
     }
     std::fs::write(out, serde_json::to_vec(&agg).unwrap()).expect("write worker output");
+    cleanup_worker_dirs();
 }
 
 pub fn run_batch(scn: &dyn Scenario, o: &BatchOpts) -> (Agg, f64) {
